@@ -24,8 +24,8 @@ using sim::Rng;
 
 namespace {
 
-enum OpKind : uint16_t { kValidStep, kCall, kBadBind, kBadAlign, kBadEmbedLabel, kBadEmbedDelta, kBadSection, kBadNamedLabel, kBadEmbedArray, kA64Form, kX86ShortJump, kX86Locked, kX86ZMask, kOpCount };
-const char* const kOpNames[kOpCount] = {"valid_step", "call", "bad_bind", "bad_align", "bad_embed_label", "bad_embed_label_delta", "bad_section", "bad_named_label", "bad_embed_array", "a64_form", "x86_short_jump", "x86_locked", "x86_zmask"};
+enum OpKind : uint16_t { kValidStep, kCall, kBadBind, kBadAlign, kBadEmbedLabel, kBadEmbedDelta, kBadSection, kBadNamedLabel, kBadEmbedArray, kA64Form, kX86ShortJump, kX86Locked, kX86ZMask, kTooManyOperands, kDetachedEmit, kOpCount };
+const char* const kOpNames[kOpCount] = {"valid_step", "call", "bad_bind", "bad_align", "bad_embed_label", "bad_embed_label_delta", "bad_section", "bad_named_label", "bad_embed_array", "a64_form", "x86_short_jump", "x86_locked", "x86_zmask", "too_many_operands", "detached_emit"};
 const char* op_name(uint16_t k) { return k < kOpCount ? kOpNames[k] : "?"; }
 
 enum HandlerMode { kHandlerNone = 0, kHandlerRecording, kHandlerThrowing, kHandlerModeCount };
@@ -508,6 +508,38 @@ CallResult perform(Subject& s, const gen::Program& prog, const Op& op, bool* mus
         if (!dst_is_vec) { *must_fail_out = true; s.last_must_fail_other = true; sim::count("c14.probe.zmask_without_vector_destination_or_mask"); }
         break;
       }
+      case kTooManyOperands: {
+        // emit_op_array() with more operands than an instruction can have, while one-shot state is pending
+        Operand ops[8];
+        for (auto& o : ops) o = s.target == gen::Target::kA64 ? Operand(a64::x(1)) : Operand(x86::ecx);
+        if (op.a[1] & 1) e.set_inst_options(s.target == gen::Target::kA64 ? InstOptions::kShortForm : InstOptions::kX86_Rep);
+        if (op.a[1] & 2) e.set_inline_comment("one-shot comment");
+        *must_fail_out = true; s.last_must_fail_other = true;
+        r.err = e.emit_op_array(InstId(s.target == gen::Target::kA64 ? uint32_t(a64::Inst::kIdAdd) : uint32_t(x86::Inst::kIdAdd)), ops, size_t(7 + (op.a[0] & 1)));
+        break;
+      }
+      case kDetachedEmit: {
+        // An Assembler that is not attached refuses to emit, and the one-shot state given to the refused call must not be
+        // applied to the first instruction emitted after it has been attached again.
+        if (s.emitter_kind != 0) break;
+        BaseAssembler& as = static_cast<BaseAssembler&>(e);
+        uint32_t section_id = as.current_section()->section_id();
+        size_t offset = as.offset();
+        if (s.code.detach(&e) != Error::kOk) break;
+        try {
+          if (s.target == gen::Target::kA64) { if (op.a[1] & 1) e.set_inline_comment("one-shot comment"); else e.set_inst_options(InstOptions::kShortForm); r.err = e.emit(a64::Inst::kIdNop); }
+          else { e.set_inst_options((op.a[1] & 1) ? InstOptions::kX86_Rep : InstOptions::kX86_Lock); if (op.a[1] & 2) e.set_inline_comment("one-shot comment"); r.err = e.emit(x86::Inst::kIdMovs, x86::byte_ptr(s.target == gen::Target::kX64 ? x86::Gp(x86::rdi) : x86::Gp(x86::edi)), x86::byte_ptr(s.target == gen::Target::kX64 ? x86::Gp(x86::rsi) : x86::Gp(x86::esi))); }
+        }
+        catch (Error thrown) { r.err = thrown; r.threw = true; }   /* (the emitter must be attached again whatever the handler does) */
+        *must_fail_out = true;
+        bool cleared = e.inst_options() == InstOptions::kNone && !e.has_extra_reg() && e.inline_comment() == nullptr;
+        Error ae = s.code.attach(&e);
+        SIM_CHECK(ae == Error::kOk, "c14:reattach-failed", "attaching the Assembler again failed with error %u", unsigned(ae));
+        (void)as.section(s.code.section_by_id(section_id));
+        as.set_offset(offset);
+        SIM_CHECK(cleared, "c14:one-shot-state-not-cleared", "an emit refused with error %u because the emitter was detached left its one-shot state (options / comment) pending for the next instruction", unsigned(r.err));
+        break;
+      }
       case kX86ShortJump: {
         // instructions that only have (or are forced into) the rel8 form: onto a label that is bound too far away they
         // cannot be encoded
@@ -585,7 +617,7 @@ void execute(const Plan& plan) {
         if (hm != kHandlerNone && op.kind != kBadNamedLabel && op.kind != kBadSection) {
           if (r.handler_calls == 0) sim::count("c14.probe.error_without_handler_call"); else if (r.handler_calls > 1) sim::count("c14.probe.handler_called_more_than_once");
           // The statement requires the error to be reported through the return value AND the attached handler.
-          if (op.kind == kCall || op.kind == kA64Form || op.kind == kX86ShortJump || op.kind == kX86Locked || op.kind == kX86ZMask || op.kind == kValidStep) SIM_CHECK(r.handler_calls >= 1, "c14:error-not-reported-to-handler", "%s returned error %u but the attached error handler was never invoked", op_name(op.kind), unsigned(r.err));
+          if (op.kind == kCall || op.kind == kA64Form || op.kind == kX86ShortJump || op.kind == kX86Locked || op.kind == kX86ZMask || op.kind == kTooManyOperands || op.kind == kValidStep) SIM_CHECK(r.handler_calls >= 1, "c14:error-not-reported-to-handler", "%s returned error %u but the attached error handler was never invoked", op_name(op.kind), unsigned(r.err));
         }
       }
       else {
@@ -733,7 +765,7 @@ Plan generate(uint64_t seed, bool thorough) {
         op.a[3] = int64_t(r.below(2));
       }
       else {
-        static const uint16_t ks[] = {kBadBind, kBadAlign, kBadEmbedLabel, kBadEmbedDelta, kBadSection, kBadNamedLabel, kBadEmbedArray, kX86ShortJump, kX86Locked, kX86ZMask};
+        static const uint16_t ks[] = {kBadBind, kBadAlign, kBadEmbedLabel, kBadEmbedDelta, kBadSection, kBadNamedLabel, kBadEmbedArray, kX86ShortJump, kX86Locked, kX86ZMask, kTooManyOperands, kDetachedEmit};
         op.kind = r.pick(ks);
         if ((op.kind == kX86ShortJump || op.kind == kX86Locked || op.kind == kX86ZMask) && target == 2) op.kind = kBadAlign;
         op.a[0] = r.chance(1, 2) ? int64_t(r.below(8)) : -int64_t(1 + r.below(8)); op.a[1] = r.chance(1, 2) ? int64_t(r.below(8)) : -int64_t(1 + r.below(8)); op.a[2] = int64_t(r.below(100));
